@@ -45,6 +45,7 @@ impl Interp {
         self.news.clear();
         self.last.clear();
         self.other.clear();
+        crate::tracked::reset_ledger();
     }
 
     fn build_from_line(line: &str) -> Box<dyn Inst> {
@@ -142,6 +143,10 @@ impl Interp {
                     }
                 };
                 format!("{} | {}", sel(self.last.get(&id(toks[1]))), sel(self.last.get(&id(toks[2]))))
+            }
+            "live" => {
+                let (live, errors, _, _, _) = crate::tracked::snapshot();
+                format!("live={} errors={}", live, errors)
             }
             "compose" => self.last.get(&id(toks[2])).cloned().unwrap_or_else(|| "none".to_string()),
             op => panic!("harness: unknown op {}", op),
